@@ -294,3 +294,109 @@ def monomial_of_result(res):
     if p["type"] == "mps_secular_equation": return secular_to_monomial(p["sec"])
     if p["type"] == "mps_chebyshev_poly": return chebyshev_to_monomial(p["coeffs"])
     return None
+
+
+# ----------------------------------------------------------------------------- exact polynomial helpers over Q[i]
+def cinv(a):
+    d = a[0] * a[0] + a[1] * a[1]
+    return (a[0] / d, -a[1] / d)
+
+
+def cdiv(a, b): return cmul(a, cinv(b))
+def cis0(a): return a[0] == 0 and a[1] == 0
+def cabs2(a): return a[0] * a[0] + a[1] * a[1]
+
+
+def poly_trim(p):
+    p = list(p)
+    while p and cis0(p[-1]): p.pop()
+    return p
+
+
+def poly_deriv(p):
+    return [(c[0] * k, c[1] * k) for k, c in enumerate(p)][1:]
+
+
+def poly_mod(a, b):
+    a = poly_trim(a); b = poly_trim(b)
+    while len(a) >= len(b) and a:
+        q = cdiv(a[-1], b[-1]); sh = len(a) - len(b)
+        for i, c in enumerate(b):
+            a[sh + i] = csub(a[sh + i], cmul(q, c))
+        a = poly_trim(a[:-1] if a and not cis0(a[-1]) else a)
+    return a
+
+
+def poly_gcd(a, b):
+    a = poly_trim(a); b = poly_trim(b)
+    while b:
+        a, b = b, poly_mod(a, b)
+    return a
+
+
+def is_squarefree(p):
+    p = poly_trim(p)
+    if len(p) <= 2: return True
+    return len(poly_gcd(p, poly_deriv(p))) == 1
+
+
+def monomial_to_chebyshev(p):
+    """exact change of basis; inverse of chebyshev_to_monomial"""
+    n = len(p) - 1
+    one = (Fr(1), Fr(0)); zero = (Fr(0), Fr(0))
+    T = [[one], [zero, one]]
+    for k in range(2, n + 1):
+        t = [zero] + [(2 * x[0], 2 * x[1]) for x in T[k - 1]]
+        for i, x in enumerate(T[k - 2]): t[i] = csub(t[i], x)
+        T.append(t)
+    rem = list(p); c = [zero] * (n + 1)
+    for k in range(n, -1, -1):
+        lead = T[k][k] if k < len(T) else one
+        c[k] = cdiv(rem[k], lead)
+        for i, x in enumerate(T[k]): rem[i] = csub(rem[i], cmul(c[k], x))
+    assert all(cis0(x) for x in rem)
+    return c
+
+
+def monomial_to_secular(p, nodes):
+    """monic p of degree n and n distinct nodes b_i -> [(a_i, b_i)] with
+       prod(x-b_i) - sum a_i prod_{j!=i}(x-b_j) == p.  Verified by the caller through secular_to_monomial."""
+    out = []
+    for i, b in enumerate(nodes):
+        den = (Fr(1), Fr(0))
+        for j, bj in enumerate(nodes):
+            if j != i: den = cmul(den, csub(b, bj))
+        v = poly_eval(p, b)
+        a = cdiv((-v[0], -v[1]), den)
+        out.append((a, b))
+    return out
+
+
+# ----------------------------------------------------------------------------- batch execution
+def run_many(binary, jobs, workdir, env=None, workers=16, timeout=120):
+    """jobs: list of dicts with 'text' (.pol contents) or 'inline' (expression) and 'opts'.
+    Returns the list of SolveResult in the same order.  Each job gets its own file."""
+    import concurrent.futures, os
+    os.makedirs(workdir, exist_ok=True)
+    def one(ij):
+        i, j = ij
+        if "inline" in j:
+            return run_solve(binary, j["inline"], j["opts"], env=env, timeout=j.get("timeout", timeout), inline=True)
+        path = os.path.join(workdir, "job%d.pol" % i)
+        with open(path, "w") as f: f.write(j["text"])
+        r = run_solve(binary, path, j["opts"], env=env, timeout=j.get("timeout", timeout))
+        try: os.remove(path)
+        except OSError: pass
+        return r
+    with concurrent.futures.ThreadPoolExecutor(max_workers=workers) as ex:
+        return list(ex.map(one, list(enumerate(jobs))))
+
+
+def discs_of(res, which="accm"):
+    """list of (re, im, rad) exact Fractions of the returned discs; rad None when not finite / not representable"""
+    out = []
+    for o in getattr(res, which):
+        rad = o.rad if which != "roots" else o.drad
+        if isinstance(rad, HugeDyadic): rad = None
+        out.append((o.re, o.im, rad))
+    return out
